@@ -473,6 +473,9 @@ class DiameterAVP(object):
 
             try:
                 _avp_class = loader.get_avp_class(avp)
+                if (_avp_class.vendor_id is None) != (avp.vendor_id is None):
+                    raise KeyError(avp.code)
+
                 avp_object = _avp_class(avp.data)
                 avps.append(avp_object)
 
